@@ -495,7 +495,14 @@ where
                     new_capacity >= old_capacity,
                     "channel read buffer must not shrink while draining messages"
                 );
-                if old_capacity == new_capacity {
+                // Also keep going while the channel still wants and has
+                // readable bytes: `read_message` may just have made room in a
+                // buffer that was full at its ceiling (shift, dropped
+                // malformed frame) with bytes still unread on the socket,
+                // and no further edge-triggered event would announce them.
+                if old_capacity == new_capacity
+                    && !(channel.interest & channel.readiness).is_readable()
+                {
                     return messages;
                 }
             }
